@@ -46,17 +46,18 @@ BASELINE = {
     "execv1": {"version": "absent", "dflt": "full", "pc": "one", "brelays": "one", "match": "y"},
     "execmutate": {"base": "v2", "site": "0", "mut": "duplicate"},
     "execdoc": {"doc": "valid2"},
-    "execservice": {"doc": "valid2", "source": "file", "prior": "none", "addr": "good"},
+    "execservice": {"doc": "valid2", "source": "file", "prior": "none", "addr": "good", "pk": "none", "strat": "best",
+                    "bid": "valid", "bid2": "same", "bid3": "same"},
     "graffiti": {"file": "one", "fallback": "none", "loc": "plain", "use": "call", "nodeclient": "na"},
-    "builderbid": {"strat": "best", "addr": "good", "bid": "valid", "second": "none", "pkcfg": "none"},
+    "builderbid": {"strat": "best", "addr": "good", "bid": "valid", "bid2": "same", "bid3": "same", "second": "none", "pkcfg": "none"},
     "proposalbest": {"strat": "best", "graffiti": "plain", "clen": "10", "nodeclient": "ok", "nodeclient1": "na", "proposal": "ok", "n": "1"},
     "proposer": {"auction": "none", "ver": "deneb", "blinded": "n", "body": "valid", "unblind": "ok", "graffiti": "none", "nodeclient": "ok"},
-    "attester": {"body": "valid", "slot": "64", "duty": "one"},
-    "aggregator": {"body": "valid", "slot": "64", "account": "present"},
-    "syncmessenger": {"body": "valid", "accounts": "all", "slot": "64"},
-    "syncaggregator": {"body": "valid", "root": "known", "slot": "64"},
+    "attester": {"body": "valid", "slot": "64", "duty": "one", "style": "direct", "node1": "none"},
+    "aggregator": {"body": "valid", "slot": "64", "account": "present", "style": "direct", "node1": "none"},
+    "syncmessenger": {"body": "valid", "accounts": "all", "slot": "64", "style": "direct", "node1": "none"},
+    "syncaggregator": {"body": "valid", "root": "known", "slot": "64", "style": "direct", "node1": "none"},
     "mergeduties": {"n": "3", "dup": "none", "range": "ok", "zero": "none", "entry": "ok"},
-    "cacheevents": {"event": "head", "ver": "deneb", "body": "valid"},
+    "cacheevents": {"event": "head", "ver": "deneb", "body": "valid", "style": "direct", "node1": "none"},
     "submitclassify": {"op": "messages", "server": "lighthouse", "err": "known"},
 }
 MAX_GROUPS = 16
@@ -66,6 +67,8 @@ LONG_LIVED = ["execservice", "graffiti", "builderbid", "proposalbest", "proposer
 # control designs for the auxiliary requests (spec/RobustnessAux.tla)
 AUX_SELF_CHECKS = {"narrow": None, "checked": None, "caller": None, "deref": "KeepsRunning", "goroutine": "KeepsRunning",
                    "kindsplit": "KeepsRunning"}
+# control designs for the poll sequences of one relay within one auction (spec/RobustnessPoll.tla)
+POLL_SELF_CHECKS = {"checked": None, "diagonal": None, "best": None, "caller": None, "firstraw": "KeepsRunning", "noguard": "KeepsRunning"}
 SELF_CHECKS = {"fresh": None, "shared_seq": None, "nilmemo": "KeepsRunning", "poison": "HistoryIndependent",
                "lock": "MTotal", "shared": "KeepsRunning"}
 
@@ -254,6 +257,17 @@ def strict(rows):
     return out
 
 
+def poll_class(a):
+    """RobustnessShapes!PollClass"""
+    if a in ("valid", "higher", "lower"):
+        return "eligible"
+    if a == "zerovalue":
+        return "zero"
+    if a in ("zerofee", "wrongparent", "badsig"):
+        return "ineligible"
+    return "nodata"
+
+
 def split(rows):
     per = {}
     for r in rows:
@@ -401,6 +415,9 @@ def check(v, sc, cfgs, full=True):
     for s in lattice:
         evs = [r.get("ev") for r in per[s["sc"]]]
         if "Outcome" in evs or "Crash" in evs:      # the input was deliverable and reached Vouch
+            if s["shape"].get("bid2", "same") != "same" and "Crash" not in evs and \
+                    len([r for r in per[s["sc"]] if r.get("ev") == "Poll" and r.get("relay") == "relay1"]) < 2:
+                continue                            # a poll sequence of which only the first answer was ever requested
             nontrivial.add(json.dumps(sig_of(s), sort_keys=True))
     hstats = {"histories": len(hist), "calls": 0, "calls_held_at_a_gate": 0, "probe_calls_compared_with_fresh": 0, "by_entry_point": {}}
     for s in hist:
@@ -434,7 +451,31 @@ def check(v, sc, cfgs, full=True):
             k = "%s: %s = %s" % (r.get("ep"), r.get("req"), r.get("answer"))
             aux[k] = aux.get(k, 0) + 1
     v.coverage["auxiliary_requests_answered"] = dict(sorted(aux.items()))
+    # polls the real code really made (logged by the scripted relay that was asked): per entry point and strategy, how
+    # many calls had relay 1 asked once / twice / three times or more, and how many of them were given answers of
+    # DIFFERENT classes within one call (zero value then a real bid, a real bid then garbage ...)
+    polls, mixed = {}, {}
+    for s in sc:
+        per_call = {}
+        for r in per[s["sc"]]:
+            if r.get("ev") == "Poll" and r.get("relay") == "relay1":
+                per_call.setdefault(r.get("call", 0), []).append(r.get("answer"))
+        strat = (s.get("shape") or s.get("inst") or {}).get("strat")
+        for answers in per_call.values():
+            k = "%s/%s: %s" % (s["ep"], strat, min(len(answers), 3))
+            polls[k] = polls.get(k, 0) + 1
+            if len({poll_class(a) for a in answers}) > 1:
+                k2 = "%s/%s" % (s["ep"], strat)
+                mixed[k2] = mixed.get(k2, 0) + 1
+    if polls:
+        v.coverage["relay_polls_per_call"] = dict(sorted(polls.items()))
+        v.coverage["calls_with_answers_of_different_classes"] = dict(sorted(mixed.items()))
     if full:
+        for ep in ("builderbid", "execservice"):
+            if any(s["ep"] == ep and s["shape"].get("strat") == "deadline" and s["shape"].get("bid2") != "same" for s in lattice) \
+                    and not mixed.get("%s/deadline" % ep):
+                raise vf.Broken("no auction of %s with the deadline strategy saw answers of different classes from one relay: the "
+                                "harness does not present the poll sequences (too few polls before the deadline?)" % ep)
         for ep in ("proposalbest", "proposer", "graffiti"):
             if any(s["ep"] == ep for s in lattice) and not any(
                     r.get("ev") == "Aux" and r.get("ep") == ep and r.get("delivered") == "fault" for r in rows):
@@ -466,17 +507,22 @@ def check(v, sc, cfgs, full=True):
 
 
 def self_checks(v):
-    """The control designs of spec/RobustnessMemo.tla: right on every fresh instance, wrong over histories / overlap.
-    TLC must say exactly that; anything else means the history invariants have lost their teeth (broken run)."""
+    """The control designs of spec/RobustnessMemo.tla (right on every fresh instance, wrong over histories / overlap),
+    spec/RobustnessAux.tla (auxiliary requests) and spec/RobustnessPoll.tla (poll sequences of one relay within one
+    auction, per style of the strategy kind).  TLC must say exactly what is expected; anything else means the invariants
+    have lost their teeth (broken run)."""
+    tables = {"RobustnessMemo": SELF_CHECKS, "RobustnessAux": AUX_SELF_CHECKS, "RobustnessPoll": POLL_SELF_CHECKS}
+    short = {"RobustnessMemo": "memo", "RobustnessAux": "aux", "RobustnessPoll": "poll"}
+
     def one(job):
         module, name = job
-        return job, vf.tlc(PID, "%s-%s" % ("memo" if module == "RobustnessMemo" else "aux", name), module,
+        return job, vf.tlc(PID, "%s-%s" % (short[module], name), module,
                            "MC_%s_%s.cfg" % (module, name), workers=2, timeout=300)
-    jobs = [("RobustnessMemo", n) for n in sorted(SELF_CHECKS)] + [("RobustnessAux", n) for n in sorted(AUX_SELF_CHECKS)]
-    res = {"RobustnessMemo": {}, "RobustnessAux": {}}
+    jobs = [(m, n) for m in sorted(tables) for n in sorted(tables[m])]
+    res = {m: {} for m in tables}
     with ThreadPoolExecutor(max_workers=6) as ex:
         for (module, name), r in ex.map(one, jobs):
-            want = (SELF_CHECKS if module == "RobustnessMemo" else AUX_SELF_CHECKS)[name]
+            want = tables[module][name]
             got = r["violated"] if not r["ok"] else None
             if r["timed_out"] or r["kind"] == "error" or got != want:
                 raise vf.Broken("self-check %s/%s: expected %s, TLC reports %s (%s); see %s/tlc.out" % (
@@ -484,7 +530,8 @@ def self_checks(v):
             res[module][name] = "%s (%d states)" % (("rejected: " + want) if want else "passes", r["distinct"])
     v.coverage["self_checks"] = res["RobustnessMemo"]
     v.coverage["self_checks_auxiliary_requests"] = res["RobustnessAux"]
-    for module in ("RobustnessMemo", "RobustnessAux"):
+    v.coverage["self_checks_poll_sequences"] = res["RobustnessPoll"]
+    for module in sorted(tables):
         vf.log("control designs (%s): " % module + ", ".join("%s %s" % (k, x) for k, x in sorted(res[module].items())))
 
 
